@@ -15,7 +15,8 @@ extern "C" {
 #endif
 
 typedef struct c08_case {
-	char     fmt[32];       /* format string */
+	char     fmt[32];       /* format description (printable copy) */
+	char    *desc;          /* the same in a heap block of exactly strlen + 1 bytes: what the library is given */
 	int      fmt_null;      /* pass NULL (library default) instead */
 	int      type;          /* family character reported by mpt_parse_format() */
 	int      known;         /* mpt_parse_next_fcn() knows the family */
